@@ -125,21 +125,28 @@ namespace rkcommon {
     inline IntrusivePtr<T> &IntrusivePtr<T>::operator=(
         const IntrusivePtr &input)
     {
-      if (input.ptr)
-        input.ptr->refInc();
+      // NOTE: 'input' may be owned by the object we are about to release
+      //       (e.g. 'head = head->next'), thus don't touch it after refDec()
+      T *newPtr = input.ptr;
+      if (newPtr)
+        newPtr->refInc();
       if (ptr)
         ptr->refDec();
-      ptr = input.ptr;
+      ptr = newPtr;
       return *this;
     }
 
     template <typename T>
     inline IntrusivePtr<T> &IntrusivePtr<T>::operator=(IntrusivePtr &&input)
     {
-      if (ptr)
-        ptr->refDec();
-      ptr = input.ptr;
+      // NOTE: 'input' may be owned by the object we are about to release
+      //       (e.g. 'head = std::move(head->next)'), thus take over its
+      //       reference first and release the old object last
+      T *oldPtr = ptr;
+      ptr       = input.ptr;
       input.ptr = nullptr;
+      if (oldPtr)
+        oldPtr->refDec();
       return *this;
     }
 
